@@ -6,7 +6,7 @@
    the three single-precision threshold tests of simple_cleaning are universally quantified parameters. *)
 From Coq Require Import List ZArith NArith.
 From PP Require Import Base.Lines Gen.Src_filters Probing.ProbingDefs Tools.DedupeDefs Tools.DedupeProofs
-  Tools.FiltersDefs Tools.FiltersProofs B64.Base64Defs.
+  Tools.FiltersDefs Tools.FiltersProofs B64.Base64Defs Hash.MurmurDefs.
 Import ListNotations.
 Local Open Scope Z_scope.
 
@@ -59,9 +59,10 @@ Print Assumptions C18_append_hom.
 (* ... and on bytes: cutting the input stream after any newline cuts the output stream (never a
    dependence on buffer position or neighbouring lines), for every per-line filter F *)
 Theorem C18_split_at_line_boundary :
-  forall (F : list line -> list line), (forall a b, F (a ++ b) = F a ++ F b) ->
+  forall (F : list line -> list line) (strip_cr : bool), (forall a b, F (a ++ b) = F a ++ F b) ->
   forall A B : list Z,
-  bytes_of (F (lines_of (A ++ newline :: B))) = bytes_of (F (lines_of (A ++ [newline]))) ++ bytes_of (F (lines_of B)).
+  bytes_of (F (records newline strip_cr (A ++ newline :: B))) =
+  bytes_of (F (records newline strip_cr (A ++ [newline]))) ++ bytes_of (F (records newline strip_cr B)).
 Proof. exact stateless_tool_split. Qed.
 Print Assumptions C18_split_at_line_boundary.
 
@@ -155,6 +156,18 @@ Proof.
 Qed.
 Print Assumptions C18_commoncrawl_properties.
 
+(* ---- the two set-based tools with the MurmurHash64A model (C14) as key: complete tools on bytes ---- *)
+Theorem C18_set_tools_complete :
+  forall (sub rem input : list Z),
+  let ks := fun l => Z.to_N (subtract_insert_key l) in
+  let kc := fun l => Z.to_N (commoncrawl_dedupe_key l) in
+  bind (subtract_lines ks (lines_of sub) (lines_of input)) (fun out => Ok (bytes_of out)) =
+    Ok (bytes_of (subtract_spec ks (lines_of sub) (lines_of input))) /\
+  bind (commoncrawl_dedupe kc (lines_of rem) (lines_of input)) (fun out => Ok (bytes_of out)) =
+    Ok (bytes_of (cc_spec kc (lines_of rem) (lines_of input))).
+Proof. intros. split; [rewrite subtract_lines_spec|rewrite commoncrawl_dedupe_spec]; reflexivity. Qed.
+Print Assumptions C18_set_tools_complete.
+
 (* ---- simple_cleaning never passes ill-formed UTF-8 or C0 controls other than TAB and CR ----
    per field (SimpleCleaningFilter::operator()), for every ICU classification and every option value: *)
 Theorem C18_simple_cleaning_field_safe :
@@ -163,6 +176,27 @@ Theorem C18_simple_cleaning_field_safe :
   wf_utf8 f = true /\ safe_bytes f = true.
 Proof. exact sc_filter_safe. Qed.
 Print Assumptions C18_simple_cleaning_field_safe.
+
+(* exact threshold --min-chars: the quantity compared is the number of code points of the field, so a field
+   with fewer than --min-chars code points is dropped (the check tests the other direction, exactly
+   min-chars kept, on the real binary where no other rule fires) *)
+Theorem C18_simple_cleaning_min_chars :
+  forall script_of is_punct is_uspace sc si too_common little_punct script_low o (f : line),
+  sc_filter script_of is_punct is_uspace sc si too_common little_punct script_low o f = true ->
+  exists cps, codepoints f = Some cps /\ (sc_min_chars o <= N.of_nat (length cps))%N.
+Proof. exact sc_filter_min_chars. Qed.
+Print Assumptions C18_simple_cleaning_min_chars.
+
+(* exact threshold --character-run R (R >= 2): a kept field contains no R equal consecutive code points
+   other than space characters (the check tests R-1 / R / R+1 on the real binary) *)
+Theorem C18_simple_cleaning_character_run :
+  forall script_of is_punct is_uspace sc si too_common little_punct script_low o (f : line) cps,
+  (2 <= sc_character_run o)%N ->
+  sc_filter script_of is_punct is_uspace sc si too_common little_punct script_low o f = true ->
+  codepoints f = Some cps ->
+  forall pre c post, cps = pre ++ repeat c (N.to_nat (sc_character_run o)) ++ post -> is_uspace c = true.
+Proof. exact sc_filter_no_long_run. Qed.
+Print Assumptions C18_simple_cleaning_character_run.
 
 (* per line, with the default key (-f 1-: every field is examined) and a delimiter that is itself an
    allowed ASCII byte (the default TAB is): every byte of a kept line is >= 32, TAB or CR, and the line
